@@ -278,7 +278,9 @@ func c09PageMap(c *Ctx, prop string) {
 	if fn == nil {
 		return
 	}
-	rfs := callsTo(fn, nameIs("(*ls.WALReader).ReadFrame", "(*ls.WALReader).readFrame"))
+	// pageMap and the phases it may have been split into
+	parts := deepFuncs(fn)
+	rfs := callsToDeep(fn, nameIs("(*ls.WALReader).ReadFrame", "(*ls.WALReader).readFrame"))
 	c.floor(rule, len(rfs), 1, "ReadFrame calls in pageMap")
 	if len(rfs) == 0 {
 		return
@@ -325,11 +327,13 @@ func c09PageMap(c *Ctx, prop string) {
 		}
 		return false
 	}
-	for _, b := range fn.Blocks {
-		for _, in := range b.Instrs {
-			if isMapWrite(in) {
-				n++
-				c.requireGuard(rule, fn, Site{in, "update of the returned page map"}, committed)
+	for _, part := range parts {
+		for _, b := range part.Blocks {
+			for _, in := range b.Instrs {
+				if isMapWrite(in) {
+					n++
+					c.requireGuard(rule, fn, Site{in, "update of the returned page map"}, committed)
+				}
 			}
 		}
 	}
@@ -338,20 +342,21 @@ func c09PageMap(c *Ctx, prop string) {
 	// (ii) nothing is read after a bad frame
 	for _, rf := range rfs {
 		blk := rf.Block()
+		scan := rf.Parent() // the function holding the read loop
 		var bad []Edge
-		bad = append(bad, factEdges(fn, cmpFact(rfErr, token.NEQ, vNil(), ""))...)
-		bad = append(bad, factEdges(fn, truthFact(func(v ssa.Value) bool {
+		bad = append(bad, factEdges(scan, cmpFact(rfErr, token.NEQ, vNil(), ""))...)
+		bad = append(bad, factEdges(scan, truthFact(func(v ssa.Value) bool {
 			call, ok := v.(*ssa.Call)
 			return ok && calleeName(call) == "errors.Is" && len(call.Call.Args) == 2 && rfErr(call.Call.Args[0])
 		}, true, ""))...)
 		c.floor(rule, len(bad), 2, "error branches on ReadFrame's error")
 		for _, e := range bad {
 			tgt := e.From.Succs[e.Succ]
-			r := reachable(fn, tgt, nil)
+			r := reachable(scan, tgt, nil)
 			c.check(!r[blk], rule, fmt.Sprintf("%s: no ReadFrame after a failed ReadFrame (edge from block %d)", fnName(fn), e.From.Index), c.pos(lastInstr(e.From)),
 				"ReadFrame unreachable from the error edge", "a further frame can be read after a frame failed validation")
 			// and no page map update either
-			for _, b := range fn.Blocks {
+			for _, b := range scan.Blocks {
 				for _, in := range b.Instrs {
 					if isMapWrite(in) && r[b] {
 						c.fail(rule, fnName(fn)+": no page-map update after a failed ReadFrame", c.pos(in), "page map updated on a path that follows a validation failure")
@@ -402,9 +407,49 @@ func c09PageMap(c *Ctx, prop string) {
 						c.requireGuard(rule, fn, Site{r, "return limited = true"}, committed)
 					}
 				case *ssa.UnOp:
+					// a named result (memory cell): every assignment of `true` is a site
+					if cell, ok := cellOf(x.X).(*ssa.Alloc); ok && x.Op == token.MUL {
+						for _, f := range withClosures(cell.Parent()) {
+							for _, b := range f.Blocks {
+								for _, in := range b.Instrs {
+									st, isSt := in.(*ssa.Store)
+									if !isSt || cellOf(st.Addr) != ssa.Value(cell) {
+										continue
+									}
+									if k, isK := st.Val.(*ssa.Const); isK {
+										if k.Value != nil && k.Value.String() == "true" {
+											nTrue++
+											c.requireGuard(rule, fn, Site{st, "limited = true (budget stop)"}, committed)
+										}
+										continue
+									}
+									visit(st.Val, seen)
+								}
+							}
+						}
+						return
+					}
 					for _, o := range origins(x) {
 						if o != v {
 							visit(o, seen)
+						}
+					}
+				case *ssa.Extract:
+					// result of the phase the scan was moved into
+					if call, ok := x.Tuple.(*ssa.Call); ok {
+						if h := call.Call.StaticCallee(); isNewHelper(h) {
+							for _, hr := range returns(h) {
+								if x.Index < len(hr.Results) {
+									if k, isK := hr.Results[x.Index].(*ssa.Const); isK {
+										if k.Value != nil && k.Value.String() == "true" {
+											nTrue++
+											c.requireGuard(rule, fn, Site{hr, "return limited = true"}, committed)
+										}
+										continue
+									}
+									visit(hr.Results[x.Index], seen)
+								}
+							}
 						}
 					}
 				}
@@ -415,10 +460,7 @@ func c09PageMap(c *Ctx, prop string) {
 	}
 	// (iv) pages above the final commit are trimmed before the map is returned
 	nDel := 0
-	for _, call := range calls(fn) {
-		if calleeName(call) != "builtin:delete" {
-			continue
-		}
+	for _, call := range callsToDeep(fn, nameIs("builtin:delete")) {
 		a := call.Common().Args
 		if len(a) != 2 || !isRet(a[0]) {
 			continue
@@ -446,7 +488,7 @@ func c09PageMap(c *Ctx, prop string) {
 		c.check(isKey, rule, fnName(fn)+": trim iterates over the page map's own keys", c.pos(call), "range key of the returned map", "deleted key does not range over the returned map")
 	}
 	// the library form: maps.DeleteFunc(m, func(pgno, _) bool { return pgno > commit })
-	for _, call := range callsTo(fn, nameIs("maps.DeleteFunc")) {
+	for _, call := range callsToDeep(fn, nameIs("maps.DeleteFunc")) {
 		a := call.Common().Args
 		if len(a) != 2 || !isRet(a[0]) {
 			continue
@@ -533,7 +575,21 @@ func c09PageMap(c *Ctx, prop string) {
 				}
 				return sawVal
 			}
-			if !(fromMap(b.X) || fromMap(b.Y)) {
+			// end + frameSize, in either association: (end + 24) + pageSize or end + (24 + pageSize)
+			var fromMapExpr func(v ssa.Value, d int) bool
+			fromMapExpr = func(v ssa.Value, d int) bool {
+				if fromMap(v) {
+					return true
+				}
+				if d > 2 {
+					return false
+				}
+				if bb, ok := v.(*ssa.BinOp); ok && bb.Op == token.ADD {
+					return fromMapExpr(bb.X, d+1) || fromMapExpr(bb.Y, d+1)
+				}
+				return false
+			}
+			if !(fromMapExpr(b.X, 0) || fromMapExpr(b.Y, 0)) {
 				good = false
 			}
 		}
